@@ -11,7 +11,7 @@
      sig params hints    -> has_ls_g, has_ls_param_or_annotation (see g), asks_server, sig_ok
    event    = 0 call | 1 t (TaskStep) | 2 t (LoopCb) | 3 j (JobStart) | 4 j (JobFinish)
    call     = 0 id folders | 1 | 2 u ver txt | 3 u ver txts | 4 u | 5 added removed | 6 v | 7 id |
-              8 id cmd(str) a | 9 tok | 10 (0 | 1 id) nm(str) v
+              8 id cmd(str) a | 9 tok | 10 (0 | 1 id) nm(str) v | 11 nb ver cell txt | 12 nb ver | 13 nb cell
    Printed: entry = msg meth part fid site inj args snap;  arg = 0 params | 1 id | 2 v;
             params = the call without its id;  snap = init docs folders trace shut cancelled (sorted);
             response = 0 id (0 null | 1 obj | 2 v) | 1 id code *)
@@ -53,8 +53,11 @@ let next_call () = match next_int () with
   | 7 -> CShutdown (next_n ())
   | 8 -> let i = next_n () in let c = next_str () in let a = next_n () in CExecCmd (i, c, a)
   | 9 -> CProgressCancel (next_n ())
-  | _ -> let r = (match next_int () with 0 -> None | _ -> Some (next_n ())) in
+  | 10 -> let r = (match next_int () with 0 -> None | _ -> Some (next_n ())) in
     let nm = next_str () in let v = next_n () in COther (r, nm, v)
+  | 11 -> let n = next_n () in let v = next_z () in let c = next_n () in let t = next_n () in CNbOpen (n, v, c, t)
+  | 12 -> let n = next_n () in let v = next_z () in CNbChange (n, v)
+  | _ -> let n = next_n () in let c = next_n () in CNbClose (n, c)
 let next_ev () = match next_int () with
   | 0 -> Recv (next_call ())
   | 1 -> TaskStep (next_nat ())
@@ -74,6 +77,9 @@ let put_params = function
   | CExecCmd (_, c, a) -> put_int 8; put_nstr c; put_n a
   | CProgressCancel t -> put_int 9; put_n t
   | COther (_, nm, v) -> put_int 10; put_nstr nm; put_n v
+  | CNbOpen (n, v, c, t) -> put_int 11; put_n n; put_z v; put_n c; put_n t
+  | CNbChange (n, v) -> put_int 12; put_n n; put_z v
+  | CNbClose (n, c) -> put_int 13; put_n n; put_n c
 let put_arg = function
   | ACall k -> put_int 0; put_params k
   | AId i -> put_int 1; put_n i
